@@ -14,6 +14,7 @@ import copy
 import json
 import os
 import random
+import shutil
 import sys
 from typing import Any, Dict, Iterator, List, Optional
 
@@ -382,6 +383,10 @@ class WriteFaults(Engine):
             scenario["fault"] = {"type": rng.choice(["call", "call", "poison"]), "site_rank": rng.randrange(1000),
                                  "index_rank": rng.randrange(1000), "kind": rng.choice(FAULT_KINDS),
                                  "poison": rng.choice(POISONS), "depth": rng.choice([0, 1])}
+            # where the reused results come from and where the new results file goes: the same file, a copy of
+            # it outside the output directory (the target is then another, already existing file), or another
+            # output base name under which a results file already exists
+            scenario["reuse_from"] = rng.choice(["in_place", "in_place", "copy", "basename"])
         return scenario
 
     def _gen_sideload(self, rng, records: List[Dict[str, Any]]) -> Dict[str, Any]:
@@ -431,7 +436,8 @@ class WriteFaults(Engine):
                 entries.append({"name": "input", "type": "dir", "children": []})
             return {"kind": "directory", "entries": entries, "exists": True, "is_file": False, "mode": "sequence",
                     "input_name": "input.gbk", "logfile": rng.choice(["inside", "outside", "none"]),
-                    "explicit_output_dir": True, "level": rng.choice(["pipeline", "pipeline", "function"])}
+                    "explicit_output_dir": True, "level": rng.choice(["pipeline", "pipeline", "function"]),
+                    "verbosity": rng.choice(["", "", "--verbose", "--debug"])}
         return {"kind": "directory", "entries": entries,
                 "dirname": rng.choice(["out", "out", "out", "run[1]", "results*", "my results", "a?b"]),
                 "exists": rng.random() < 0.9, "is_file": rng.random() < 0.05,
@@ -439,7 +445,8 @@ class WriteFaults(Engine):
                 "input_name": rng.choice(["input.gbk", "genome.fa", "seq.gbk.gz", "contigs.fa.gz", "genome.json.gbk", "old.json.bz2.gbk"]),
                 "logfile": rng.choice(["inside", "outside", "none"]),
                 "explicit_output_dir": rng.random() < 0.8,
-                "level": rng.choice(["function", "function", "pipeline"])}
+                "level": rng.choice(["function", "function", "pipeline"]),
+                "verbosity": rng.choice(["", "", "--verbose", "--debug"])}
 
     # ------------------------------------------------------------ execution
     def execute(self, scenario: Dict[str, Any], prop: str) -> RunResult:
@@ -565,7 +572,20 @@ class WriteFaults(Engine):
             def hook(invocation: Dict[str, Any]) -> None:
                 arm_next_write(invocation, spec)
             reuse_args = [arg for arg in inv["args"]]
-            second = dict(inv, args=reuse_args + ["--reuse-results", target], input=None, hits=[], domain_hits={})
+            source = target
+            mode = scenario.get("reuse_from", "in_place")
+            if mode == "copy":
+                os.mkdir(os.path.join(work, "elsewhere"))
+                source = os.path.join(work, "elsewhere", "input.json")
+                shutil.copyfile(target, source)
+                res.probe("reuse_from_copy_elsewhere")
+            elif mode == "basename":
+                reuse_args += ["--output-basename", "final"]
+                target = os.path.join(outdir, "final.json")
+                shutil.copyfile(source, target)
+                res.probe("reuse_under_other_basename")
+                before = P.snapshot(outdir)
+            second = dict(inv, args=reuse_args + ["--reuse-results", source], input=None, hits=[], domain_hits={})
             faulted = P.invoke(second, hook)
             armed = next((e["armed"] for e in faulted["events"] if "armed" in e), None)
             fired = any(e.get("fired") for e in faulted["events"])
@@ -674,6 +694,9 @@ class WriteFaults(Engine):
                     position = args.index("--logfile")
                     del args[position:position + 2]
                 inv = {"args": args, "input": input_path, "hits": [], "domain_hits": {}, "salt": 0}
+                if scenario.get("verbosity"):
+                    inv["args"] = args + [scenario["verbosity"]]
+                    inv["logging"] = True
                 result = P.invoke(inv, hook)
                 status = result["status"]
                 if status.startswith("raised:") and "AntismashInputError" not in status and "all records skipped" not in result.get("error", ""):
@@ -762,14 +785,22 @@ class WriteFaults(Engine):
                 args += ["--logfile", logfile]
             if scenario["mode"] == "reuse":
                 args += ["--reuse-results", input_path]
+            if scenario.get("verbosity"):
+                args += [scenario["verbosity"]]
             options = build_config(args, isolated=True, modules=main.get_all_modules())
             name = options.output_dir
             if not scenario["explicit_output_dir"] and scenario["mode"] != "reuse":
                 # the directory name is derived from the input's base name in the working directory
                 os.chdir(os.path.dirname(outdir))
                 name = ""
+            import contextlib
+            from antismash.common import logs
+            # with a verbosity option the logging is set up the way run_antismash does it
+            context = (logs.changed_logging(logfile=options.logfile, verbose=options.verbose, debug=options.debug)
+                       if scenario.get("verbosity") else contextlib.nullcontext())
             try:
-                main.prepare_output_directory(name, input_path)
+                with context:
+                    main.prepare_output_directory(name, input_path)
                 return "returned"
             except AntismashInputError as err:
                 return f"raised:AntismashInputError:{err}"
@@ -781,7 +812,11 @@ class WriteFaults(Engine):
             code = 0
             try:
                 import logging
-                logging.disable(logging.CRITICAL)
+                if scenario.get("verbosity"):
+                    sys.stderr = open(os.devnull, "w", encoding="utf-8")  # pylint: disable=consider-using-with
+                    logging.disable(logging.NOTSET)     # (the forking process may have had logging switched off)
+                else:
+                    logging.disable(logging.CRITICAL)
                 status = body()
                 with open(result_file, "w", encoding="utf-8") as handle:
                     handle.write(status)
@@ -840,6 +875,7 @@ class WriteFaults(Engine):
 
 
 EXPECTED_PROBES = ["conversion_positions", "conversion_line_events", "crash_points_checked", "refusal_expected", "refused_and_untouched", "accepted",
-                   "recovered_after_failed_run", "directory_with_entries"]
+                   "recovered_after_failed_run", "directory_with_entries", "reuse_from_copy_elsewhere",
+                   "reuse_under_other_basename"]
 
 ENGINE = WriteFaults()
